@@ -601,11 +601,13 @@ pub struct RandCfg {
     pub clears: bool,
     /// one in `clear_den` of the calls of the last group is a clear (default 6; small = clear churn)
     pub clear_den: u64,
+    /// >= 0: every instance is constructed with this capacity hint (default: drawn from 0, 1, 8, 9, 33)
+    pub cap: i64,
 }
 
 pub fn run_random<C: KeyColl>(tr: &mut Trace, cfg: &RandCfg) {
     let mut rng = Rng::new(cfg.seed);
-    let caps = [0usize, 1, 8, 9, 33];
+    let caps = if cfg.cap >= 0 { [cfg.cap as usize; 5] } else { [0usize, 1, 8, 9, 33] };
     let mut s: KeySession<C> = KeySession::new(tr, cfg.keys, caps[(rng.next() % 5) as usize], 7);
     s.snap_every = cfg.snap_every;
     s.reset(s.cap);
